@@ -199,20 +199,64 @@ struct ParserCheck
         }
     }
 
-    // The parser object is first built with declaration `Dold` and parses `av_old`; then a freshly built parser with
-    // declaration `D` is move-assigned into the same object.  Parsing `av` must agree with the reference for (D, av).
-    void run_after_replace(const Decl& Dold, const std::vector<std::string>& av_old, const Decl& D,
-                           const std::vector<std::string>& av, mc::Report& rep, long idx) const
+    // Argument vectors that put a (partially) declared parser through every token shape once before the part under test:
+    // nothing at all, one valid vector using each declared item (long and `=` forms, a short value-taking form, a bundle
+    // of toggle letters, a positional), a bundle and a long name that are rejected.  Whatever an implementation derives
+    // lazily from its declarations (tables, letter sets) exists after these.
+    static std::vector<std::vector<std::string>> warmups(const Decl& D)
     {
-        auto r = refparse(D, av, {});
+        std::vector<std::string> valid;
+        std::string letters;
+        bool opt_done = false;
+        for (auto& it : D.items)
+        {
+            if (it.kind == 't')
+            {
+                if (it.sh.size() == 1)
+                    letters += it.sh;
+                else
+                    valid.push_back("--" + it.name);
+            }
+            else if (it.kind == 'm')
+            {
+                if (it.sh.size() == 1)
+                {
+                    valid.push_back("-" + it.sh);
+                    valid.push_back("w");
+                }
+                valid.push_back("--" + it.name + "=w");
+            }
+            else
+            {
+                valid.push_back(it.sh.size() == 1 && !opt_done ? "-" + it.sh + "=w" : "--" + it.name + "=w");
+                opt_done = true;
+            }
+        }
+        if (!letters.empty())
+            valid.insert(valid.begin(), "-" + letters + letters.substr(0, 1));
+        if (D.accepted != 0)
+            valid.push_back("w");
+        return { {}, valid, { "-\x01\x02" }, { "--zzz-unknown" } };
+    }
+
+    // The parser object had another declaration and was used with it, then a freshly declared parser is move-assigned into
+    // it: the parse must agree with the reference for the new declaration alone.
+    void run_after_replace(const Decl& Dold, const std::vector<std::string>& av_old, const Decl& D,
+                           const std::vector<std::string>& av, mc::Report& rep, long idx, const Env& env = {}) const
+    {
+        auto r = refparse(D, av, env);
         nitro::options::parser p;
         build(p, Dold);
+        apply_env(Dold, {});
         run_on(p, Dold, av_old);
+        for (auto& w : warmups(Dold))
+            run_on(p, Dold, w);
         {
             nitro::options::parser fresh;
             build(fresh, D);
             p = std::move(fresh);
         }
+        apply_env(D, env);
         auto i = run_on(p, D, av);
         rep.count("executions", 2);
         rep.count("parses_after_move_assignment");
@@ -226,19 +270,21 @@ struct ParserCheck
                                 .raw("previous_declaration", decl_json(Dold))
                                 .l("previous_argv", av_old)
                                 .l("argv", av)
-                                .raw("env", "{}")
+                                .raw("env", env_json(env))
                                 .str();
             rep.violation("after-move-assignment:" + d.clause, id + ":after-move-assignment:" + d.clause + ":" + class_seq(D, av), w,
-                          "parser object first declared as {" + Dold.str() + "} and used for " + mc::jlist(av_old) + ", then a parser {" + D.str() +
+                          "parser object first declared as {" + Dold.str() + "} and used for " + mc::jlist(av_old) + " and warm-up vectors, then a parser {" + D.str() +
                               "} was move-assigned into it; parse(" + mc::jlist(av) + "): " + d.detail,
                           idx);
         }
     }
 
-    // Incremental declaration: the first `k` items are declared, the parser is used once (parse and usage), then the
-    // remaining items are declared through group references the caller obtained *before* that first use.  The parse of
-    // `av` must agree with the reference for the complete declaration.
-    void run_incremental(const Decl& D, size_t k, const std::vector<std::string>& av, const Env& env, mc::Report& rep, long idx) const
+    // Incremental declaration: the first `k` items are declared, the parser is used (usage, then the warm-up parses), then
+    // the remaining items are declared through group references the caller obtained *before* that first use (mode 0); or
+    // all items are declared before the first use but the items from `k` on receive their short names only afterwards,
+    // through the option references the caller kept (mode 1).  The parse of `av` must agree with the reference for the
+    // complete declaration.
+    void run_incremental(const Decl& D, size_t k, const std::vector<std::string>& av, const Env& env, mc::Report& rep, long idx, int mode = 0) const
     {
         auto r = refparse(D, av, env);
         apply_env(D, env);
@@ -248,13 +294,16 @@ struct ParserCheck
         for (auto& it : D.items)
             if (!it.group.empty() && !kept.count(it.group))
                 kept[it.group] = &p.group(it.group);
-        auto declare = [&](const Item& it) {
+        std::vector<std::function<void()>> late_names;
+        auto declare = [&](const Item& it, bool with_short) {
             nitro::options::group& g = *kept[it.group];
             if (it.kind == 'o')
             {
                 auto& o = g.option(it.name);
-                if (!it.sh.empty())
+                if (!it.sh.empty() && with_short)
                     o.short_name(it.sh);
+                else if (!it.sh.empty())
+                    late_names.push_back([&o, &it] { o.short_name(it.sh); });
                 if (!it.env.empty())
                     o.env(it.env);
                 if (it.has_def)
@@ -265,8 +314,10 @@ struct ParserCheck
             else if (it.kind == 'm')
             {
                 auto& o = g.multi_option(it.name);
-                if (!it.sh.empty())
+                if (!it.sh.empty() && with_short)
                     o.short_name(it.sh);
+                else if (!it.sh.empty())
+                    late_names.push_back([&o, &it] { o.short_name(it.sh); });
                 if (!it.env.empty())
                     o.env(it.env);
                 if (it.has_def)
@@ -277,8 +328,10 @@ struct ParserCheck
             else
             {
                 auto& o = g.toggle(it.name);
-                if (!it.sh.empty())
+                if (!it.sh.empty() && with_short)
                     o.short_name(it.sh);
+                else if (!it.sh.empty())
+                    late_names.push_back([&o, &it] { o.short_name(it.sh); });
                 if (!it.env.empty())
                     o.env(it.env);
                 if (it.tdef)
@@ -287,19 +340,37 @@ struct ParserCheck
                     o.allow_reverse();
             }
         };
-        for (size_t i = 0; i < k && i < D.items.size(); i++)
-            declare(D.items[i]);
+        Decl part = D;
+        if (mode == 0)
+        {
+            for (size_t i = 0; i < k && i < D.items.size(); i++)
+                declare(D.items[i], true);
+            part.items.resize(std::min(k, D.items.size()));
+        }
+        else
+        {
+            for (size_t i = 0; i < D.items.size(); i++)
+            {
+                declare(D.items[i], i < k);
+                if (i >= k)
+                    part.items[i].sh.clear();
+            }
+        }
         p.accept_positionals(D.accepted);
         p.greedy_postionals(D.greedy);
         {
-            Decl part = D;
-            part.items.resize(std::min(k, D.items.size()));
             std::stringstream sink;
             p.usage(sink);
-            run_on(p, part, {}); // the parse comes last: whatever the parser derives from its declarations exists now
+            for (auto& w : warmups(part)) // the parses come last: whatever the parser derives from its declarations exists now
+                run_on(p, part, w);
         }
-        for (size_t i = k; i < D.items.size(); i++)
-            declare(D.items[i]);
+        if (mode == 0)
+            for (size_t i = k; i < D.items.size(); i++)
+                declare(D.items[i], true);
+        else
+            for (auto& f : late_names)
+                f();
+        apply_env(D, env);
         auto i = run_on(p, D, av);
         rep.count("executions", 2);
         rep.count("parses_after_incremental_declaration");
@@ -307,12 +378,36 @@ struct ParserCheck
         {
             if (!judged(d.clause))
                 continue;
-            std::string w = mc::J().s("decl", D.str()).raw("declaration", decl_json(D)).n("declared_before_first_use", static_cast<long long>(k)).l("argv", av).raw("env", env_json(env)).str();
+            std::string w = mc::J().s("decl", D.str()).raw("declaration", decl_json(D)).n("declared_before_first_use", static_cast<long long>(k)).n("mode", mode).l("argv", av).raw("env", env_json(env)).str();
             rep.violation("incremental-declaration:" + d.clause, id + ":incremental-declaration:" + d.clause + ":" + class_seq(D, av), w,
-                          "first " + std::to_string(k) + " item(s) declared, parser used once (parse, usage), the rest declared through kept group references; parse(" +
-                              mc::jlist(av) + "): " + d.detail,
+                          (mode == 0 ? "first " + std::to_string(k) + " item(s) declared, parser used (usage, warm-up parses), the rest declared through kept group references"
+                                     : "all items declared, those from #" + std::to_string(k) + " on without their short names; parser used (usage, warm-up parses); short names set afterwards through kept option references") +
+                              "; parse(" + mc::jlist(av) + "): " + d.detail,
                           idx);
         }
+    }
+
+    // both "the object was used before" shapes for one (declaration, vector): incremental declaration for a few split
+    // points in both modes, and move assignment over a parser that had `Dprev`
+    template <typename Ctx>
+    void used_before(Ctx& ctx, const Decl& D, const Decl& Dprev, const std::vector<std::string>& av, const Env& env) const
+    {
+        std::set<size_t> ks = { 0, 1, D.items.size() / 2 };
+        for (size_t k : ks)
+        {
+            if (k >= D.items.size() && k != 0)
+                continue;
+            for (int mode = 0; mode < 2; mode++)
+            {
+                long idx = ctx.next;
+                ctx.each([&] { return mc::Desc{ mc::J().s("decl", D.str()).raw("declaration", decl_json(D)).n("declared_before_first_use", static_cast<long long>(k)).n("mode", mode).l("argv", av).raw("env", env_json(env)).str(), "incremental:" + class_seq(D, av) }; },
+                         [&](mc::Report& rep) { run_incremental(D, k, av, env, rep, idx, mode); });
+            }
+        }
+        long idx = ctx.next;
+        auto old = warmups(Dprev)[1];
+        ctx.each([&] { return mc::Desc{ mc::J().s("decl", D.str()).raw("declaration", decl_json(D)).raw("previous_declaration", decl_json(Dprev)).l("previous_argv", old).l("argv", av).raw("env", env_json(env)).str(), "replace:" + class_seq(D, av) }; },
+                 [&](mc::Report& rep) { run_after_replace(Dprev, old, D, av, rep, idx, env); });
     }
 
     int replay(const std::string& path) const
@@ -336,7 +431,7 @@ struct ParserCheck
             {
                 Decl D = decl_from(w.at("declaration"));
                 mc::Report rep;
-                run_incremental(D, static_cast<size_t>(w.n("declared_before_first_use")), w.strings("argv"), env_from(w), rep, 0);
+                run_incremental(D, static_cast<size_t>(w.n("declared_before_first_use")), w.strings("argv"), env_from(w), rep, 0, static_cast<int>(w.n("mode", 0)));
                 printf("replay %s (incremental declaration)\n", id.c_str());
                 for (auto& v : rep.violations)
                     printf("  FAILED clause: %s\n    %s\n", v.second.clause.c_str(), v.second.detail.c_str());
@@ -348,7 +443,7 @@ struct ParserCheck
             {
                 Decl D = decl_from(w.at("declaration")), Dold = decl_from(w.at("previous_declaration"));
                 mc::Report rep;
-                run_after_replace(Dold, w.strings("previous_argv"), D, w.strings("argv"), rep, 0);
+                run_after_replace(Dold, w.strings("previous_argv"), D, w.strings("argv"), rep, 0, env_from(w));
                 printf("replay %s (parser object re-used through move assignment)\n", id.c_str());
                 for (auto& v : rep.violations)
                     printf("  FAILED clause: %s\n    %s\n", v.second.clause.c_str(), v.second.detail.c_str());
